@@ -11,6 +11,7 @@ import (
 
 	"github.com/tsawler/tabula/htmldoc"
 	"github.com/tsawler/tabula/model"
+	"github.com/tsawler/tabula/rag"
 )
 
 // Reader-related errors.
@@ -294,6 +295,37 @@ func (r *Reader) MarkdownWithOptions(opts ExtractOptions) (string, error) {
 		}
 
 		md, err := htmlReader.MarkdownWithOptions(htmlOpts)
+		if err != nil {
+			continue
+		}
+
+		if md = strings.TrimSpace(md); md != "" {
+			parts = append(parts, md)
+		}
+	}
+
+	return strings.Join(parts, "\n\n---\n\n"), nil
+}
+
+// MarkdownWithRAGOptions extracts content as markdown and applies the heading
+// options of mdOpts (HeadingLevelOffset, MaxHeadingLevel) to every chapter, as
+// the other formats do. Front matter and a table of contents are not generated
+// for EPUBs.
+func (r *Reader) MarkdownWithRAGOptions(opts ExtractOptions, mdOpts rag.MarkdownOptions) (string, error) {
+	htmlOpts := htmldoc.ExtractOptions{
+		NavigationExclusion: htmldoc.NavigationExclusionMode(opts.NavigationExclusion),
+	}
+	mdOpts.IncludeMetadata = false
+	mdOpts.IncludeTableOfContents = false
+
+	var parts []string
+	for _, chapter := range r.chapters {
+		htmlReader, err := htmldoc.OpenReader(bytes.NewReader(chapter.Content))
+		if err != nil {
+			continue
+		}
+
+		md, err := htmlReader.MarkdownWithRAGOptions(htmlOpts, mdOpts)
 		if err != nil {
 			continue
 		}
